@@ -28,9 +28,9 @@ CHECKS["C20"] = ("exploration", "schedule control at 11 yield points of follower
   "Stop must return for every enumerated placement and random stop; a watchdog expiry counts only with two identical goroutine dumps in which every wallet goroutine is blocked in a channel/lock/wait-group operation; the database directory must be open-able again; after restart (or without a stop) every tip is applied, the import turns ready, the removed wallet disappears",
   "goroutines are parked only at hook points (outside database transactions); API server and chain notifications are stopped before WalletManager.Stop as in loader.go; bounded progress (40-60 s) stands in for 'eventually'", "§5 C20")
 
-CHECKS["C19"] = ("exploration", "request-grammar monitor: every wallet-facing api.APIServer handler called by reflection under recover() with a 60 s watchdog, requests drawn from a field-name aware grammar over the live wallet state (valid / valid-with-one-field-replaced / generated), interleaved with hostile blocks, unconfirmed transactions, reorganisations, held imports/removals and restarts; follower liveness and logrus exit-handler monitor after every chain event; a tenth under the Go race detector",
+CHECKS["C19"] = ("exploration", "request-grammar monitor: every api.APIServer handler except GetClientStatus and SendRawTransaction (34 handlers, incl. the chain-query ones over the simulator's chain database) called by reflection under recover() with a 60 s watchdog, requests drawn from a field-name aware grammar over the live wallet state (valid / valid-with-one-field-replaced / generated), interleaved with hostile blocks, unconfirmed transactions, reorganisations, held imports/removals and restarts; follower liveness and logrus exit-handler monitor after every chain event; a tenth under the Go race detector",
   "no handler may panic, return neither response nor error, hang with a structural deadlock, or still run after the watchdog and 200 000 storage calls (unbounded work); a 10 GiB memory guard ends a child whose wallet code allocates without bound; after every delivered block / unconfirmed transaction the follower must have consumed it and no wallet goroutine may have died",
-  "handlers that only proxy to the consensus node are not exercised (no such node in the simulator); request strings valid UTF-8, no nil messages; chain events restricted to output classes block validation accepts; consensus minimum staking value lowered to 1 MASS per case", "§5 C19")
+  "GetClientStatus and SendRawTransaction are not exercised (need live peers / mempool); request strings valid UTF-8, no nil messages; chain events restricted to output classes block validation accepts; consensus minimum staking value lowered to 1 MASS per case", "§5 C19")
 
 CHECKS["C17"] = ("exploration", "schedule control through the wallet-database interposer: each of four queries is parked in front of every one of its database reads while 1-2 tips (connect / reorg) are committed and the same question is asked undisturbed at every boundary; answer must equal one boundary's answer, a built transaction must be spendable at one boundary per the reference ledger; plus seven API goroutines against follower and worker under the Go race detector",
   "for every read gap of WalletBalance(detail), AddressBalance, GetUtxo and AutoCreateRawTransaction (quick: ≤14 sampled gaps per query and case plus every phase boundary of multi-transaction calls, also in a two-tip variant with a large wallet coinbase; thorough: all) the gated answer is compared with the set of boundary answers; race reports in which wallet code performs at least one of the two accesses are violations",
